@@ -31,6 +31,15 @@ func Root() string {
 	return "/verif"
 }
 
+// OutRoot is where evidence and replays are written: VERIF_OUT if set (seed testing against a scratch
+// checkout must not overwrite the committed evidence), else Root().
+func OutRoot() string {
+	if r := os.Getenv("VERIF_OUT"); r != "" {
+		return r
+	}
+	return Root()
+}
+
 func Seed() int {
 	n, _ := strconv.Atoi(os.Getenv("VERIF_SEED"))
 	return n
@@ -44,7 +53,7 @@ func New(prop, tier string) *Evidence {
 // that cmd/evmerge later folds into evidence/<id>.json.
 func (e *Evidence) Write(start time.Time) {
 	e.WallS = time.Since(start).Seconds()
-	dir := filepath.Join(Root(), "evidence")
+	dir := filepath.Join(OutRoot(), "evidence")
 	name := e.PropertyID + ".json"
 	if part := os.Getenv("VERIF_PART"); part != "" {
 		dir = filepath.Join(dir, "parts")
@@ -101,7 +110,7 @@ func Known(prop string) []Finding {
 
 // ReplayPath returns a path under /verif/replays for a new counterexample.
 func ReplayPath(prop, name string) string {
-	dir := filepath.Join(Root(), "replays")
+	dir := filepath.Join(OutRoot(), "replays")
 	os.MkdirAll(dir, 0755)
 	return filepath.Join(dir, prop+"-"+name+".json")
 }
